@@ -1527,7 +1527,8 @@ func buildSelectFieldsWithExpressions(fields []Field) (
 				aggFields := []types.AggregationFieldInfo{{
 					FuncName:    extractFunctionName(f.Expression),
 					InputField:  n,
-					Placeholder: "__" + extractFunctionName(f.Expression) + "_" + alias + "__",
+					// the alias of an item written without AS is its text: keep the placeholder an identifier
+					Placeholder: "__" + extractFunctionName(f.Expression) + "_" + placeholderSafe(alias) + "__",
 					AggType:     aggregator.AggregateType(extractFunctionName(f.Expression)),
 					FullCall:    f.Expression,
 				}}
@@ -1572,6 +1573,16 @@ func buildSelectFieldsWithExpressions(fields []Field) (
 		}
 	}
 	return selectFields, fieldMap, expressions, postAggExpressions, nil
+}
+
+// placeholderSafe maps every character of s that cannot be part of an identifier to '_'.
+func placeholderSafe(s string) string {
+	return strings.Map(func(r rune) rune {
+		if r == '_' || (r >= 'a' && r <= 'z') || (r >= 'A' && r <= 'Z') || (r >= '0' && r <= '9') {
+			return r
+		}
+		return '_'
+	}, s)
 }
 
 // isComplexAggregationExpression checks if an expression contains multiple aggregation functions or operators with aggregation functions
